@@ -294,7 +294,7 @@ package appencryption
 //@   facet C07
 //@   safety C07
 //@   opt no-frame
-//@   requires ik != nil && crypto != nil
+//@   requires ik != nil && crypto != nil && drr.Key != nil
 
 //@ func (*Session).Decrypt
 //@   names s, ctx, d
@@ -859,3 +859,28 @@ package appencryption
 
 //@ func (*cacheWrapper).Get
 //@   ensures [C06,C16:session-cache-keyed-by-the-exact-partition-id] ncalls(Get) == 1 && arg(Get, 1, key) == id && (err == nil && !ret(Get, 1, 1) ==> arg(loader, 1, id) == id && arg(Set, 1, key) == id)
+
+// ---- no-panic sweep over the rest of the encrypt / decrypt path (C07) ----
+//@ func decryptRow$1
+//@   safety C07
+//@   requires crypto != nil && drr.Key != nil
+//@ func (*envelopeEncryption).systemKeyFromEKR
+//@   safety C07
+//@ func (*envelopeEncryption).intermediateKeyFromEKR
+//@   safety C07
+//@ func (*envelopeEncryption).loadLatestOrCreateSystemKey
+//@   safety C07
+//@ func (*envelopeEncryption).createIntermediateKey
+//@   safety C07
+//@ func (*envelopeEncryption).loadLatestOrCreateIntermediateKey
+//@   safety C07
+//@ func (*envelopeEncryption).EncryptPayload
+//@   safety C07
+//@ func (*envelopeEncryption).getOrLoadSystemKey$1
+//@   safety C07
+//@ func (*envelopeEncryption).createIntermediateKey$1
+//@   safety C07
+//@ func (*envelopeEncryption).EncryptPayload$1
+//@   safety C07
+//@ func (*envelopeEncryption).DecryptDataRowRecord$1
+//@   safety C07
